@@ -8,4 +8,5 @@ pub mod h_block;
 pub mod h_stream;
 pub mod h_cts;
 pub mod h_misc;
+pub mod h_shim;
 pub mod table;
